@@ -7,7 +7,7 @@ LEVEL = "proof"
 PROPS_FILE = "C13.v"
 RUN_MODULE = "RunC13"
 TRANSLATOR_UNITS = []
-SHARD = 60
+SHARD = 700
 F4 = "F4-asyncfifo-depth1-elaborate"
 RULE = ("real AsyncFIFO/AsyncFIFOBuffered, domains 'read'/'write' declared by hand, clocks driven from a testbench by "
         "ctx.set(Cat(clk_w, clk_r), bits) through event words over {W,R,WR} (both clocks low between events), inputs "
@@ -16,8 +16,9 @@ RULE = ("real AsyncFIFO/AsyncFIFOBuffered, domains 'read'/'write' declared by ha
         "levels in 0..depth; its verdict is the last integer of the observation, the model side says 0). "
         "Streams: (1) construct+elaborate for both classes, depths -3..40, exact_depth both ways (spec answer 'elaborates' "
         "and faithful answer); (2) Gray encode/decode as elaborated, all values of widths 0..7 + random wide; "
-        "(3) ALL event words of length <= L (quick 6, 7 for AsyncFIFO(2); thorough 7/8) for AsyncFIFO(depth 2) and "
-        "AsyncFIFOBuffered(depth 3) after preambles {none, filled+visible, past start-up reset}, strobes all-on and random; "
+        "(3) ALL event words of length <= L (quick 6, 7 for AsyncFIFO(2) all-on, 5 after a preamble; thorough 7/8/7) for "
+        "AsyncFIFO(depth 2) and AsyncFIFOBuffered(depth 3) after preambles {none, filled+visible, past start-up reset}, "
+        "strobes all-on and random; "
         "(4) seeded random walks (quick 400 events, thorough 2000) for depths 0..9,16,17 x both classes x exact both ways "
         "x regimes 1:1, 1:7, 7:1, bursty, coincident-heavy with strobe phases (fill, drain, balanced, saturated) and, in "
         "a fraction, write-domain reset pulses. non-trivial = (trace) some event shows r_rdy=1, i.e. data crossed the CDC; "
@@ -94,7 +95,8 @@ def gen_cases(tier, seed):
     for cls in (0, 1):
         for depth in range(-3, 41):
             for exact in (False, True):
-                short.append({"k": "elab", "cls": cls, "depth": depth, "exact": exact})
+                if depth >= 0:      # the specification quantifies over the documented depths (non-negative)
+                    short.append({"k": "elab", "cls": cls, "depth": depth, "exact": exact})
                 short.append({"k": "elabm", "cls": cls, "depth": depth, "exact": exact})
     # (2) Gray code helpers as elaborated
     for w in range(0, 8):
@@ -109,8 +111,9 @@ def gen_cases(tier, seed):
     pre_fill = [word(1, 1, 0, 0, 1), word(1, 1, 0, 0, 2), word(2, 0, 0, 0, 0), word(2, 0, 0, 0, 0)]
     pre_start = [word(2, 0, 0, 0, 0)] * 3
     L = 6 if not thorough else 7
-    plans = [(0, 2, [], L + 1, "on"), (0, 2, [], L, "rnd"), (0, 2, pre_fill, L, "on"), (0, 2, pre_start, L, "rnd"),
-             (1, 3, [], L, "on"), (1, 3, pre_fill, L, "rnd"), (1, 3, pre_start, L, "on")]
+    P = L if thorough else L - 1
+    plans = [(0, 2, [], L + 1, "on"), (0, 2, [], L, "rnd"), (0, 2, pre_fill, P, "on"), (0, 2, pre_start, P, "rnd"),
+             (1, 3, [], L, "on"), (1, 3, pre_fill, P, "rnd"), (1, 3, pre_start, P, "on")]
     for cls, depth, pre, maxlen, mode in plans:
         for n in range(0 if not pre else 1, maxlen + 1):
             for w in itertools.product((1, 2, 3), repeat=n):
@@ -147,6 +150,8 @@ def gen_cases(tier, seed):
             li += 1
         cases.append(c)
     cases += long_[li:]
+    global SHARD
+    SHARD = 400 if thorough else 700      # few, larger shards: coqc start-up dominates small ones
     return cases
 
 
@@ -320,6 +325,40 @@ def shrink(c, obs, model):
     c2 = dict(c)
     c2["ev"] = c["ev"][:j + 1]
     return c2, run_impl(c2), list(model[:2 + j + 1]) + [0]
+
+
+def extra(tier, seed, findings):
+    """Measured reach of the random walks (no verdict here: the walks are compared case by case above)."""
+    walks = [c for c in gen_cases(tier, seed) if c["k"] == "trace" and c["g"] != "words"]
+    rng = random.Random(seed + 1)
+    sample = rng.sample(walks, min(len(walks), 80))
+    st = collections.Counter()
+    for c in sample:
+        obs = run_impl(c)
+        if obs[0] != 1 or obs[1] == 0:
+            st["walks_not_simulated(ctor error / F4 depth / depth 0)"] += 1
+            continue
+        depth = obs[1]
+        o = [unpack(p) for p in obs[2:-1]]
+        st["walks_simulated"] += 1
+        st["events"] += len(o)
+        st["coincident_events"] += sum(1 for x in c["ev"] if x % 4 == 3)
+        st["walks_with_reset_pulses"] += int(any(unword(x)[4] for x in c["ev"]))
+        st["walks_reaching_full(w_rdy=0)"] += int(any(not x["w_rdy"] for x in o))
+        st["walks_level_reaches_depth"] += int(any(x["w_level"] == depth or x["r_level"] == depth for x in o))
+        wr = rd = 0
+        pre = dict(w_rdy=1, r_rdy=0)
+        for x, ob in zip(c["ev"], o):
+            ev, wen, _, ren, _ = unword(x)
+            wr += int(ev & 1 and wen and pre["w_rdy"])
+            rd += int(ev & 2 and ren and pre["r_rdy"])
+            pre = ob
+        st["accepted_writes"] += wr
+        st["accepted_reads"] += rd
+        st["walks_pointer_wraps(>= 2*depth entries passed)"] += int(rd >= 2 * depth)
+        st["walks_drained_to_empty_after_data"] += int(rd > 0 and wr == rd)
+        st["monitor_failures"] += int(obs[-1] != 0)
+    return [], {"walk_reach_sample": dict(st)}
 
 
 def explain(c):
